@@ -280,7 +280,11 @@ let custom_fn (spec : string) : (M.value -> M.value M.outcome) option =
   | "neednumber" -> Some (fun a -> match a with M.VFloat _ | M.VInt _ -> M.Ok a | _ -> M.Err (M.EExpectedNumber a))
   | _ -> None
 
-type xop = Plain of M.cop | SetCustom of M.str * (M.value -> M.value M.outcome)
+type xop =
+  | Plain of M.cop
+  | SetCustom of M.str * (M.value -> M.value M.outcome)
+  | Pre of M.str                      (* precompile and keep: the model keeps the source *)
+  | Evp of string * bool              (* evaluate the kept tree: entry code without the level, keep the context? *)
 
 let parse_op (op : string) : M.cop =
   match split_on ' ' op with
@@ -333,6 +337,10 @@ let parse_xop (op : string) : xop =
   match split_on ' ' op with
   | [ "setfn"; f; l ] ->
       (match custom_fn l with Some g -> SetCustom (str_of_hex f, g) | None -> Plain (parse_op op))
+  | [ "pre"; src ] -> Pre (str_of_hex src)
+  | [ "pre" ] -> Pre []
+  | [ "evp"; code ] -> Evp (code, true)
+  | [ "evpc"; code ] -> Evp (code, false)
   | _ -> Plain (parse_op op)
 
 let step_custom (st : M.ctx * M.log) (f : M.str) (g : M.value -> M.value M.outcome) : (M.ctx * M.log) * M.cout =
@@ -355,10 +363,19 @@ let step_wrapped (st : M.ctx * M.log) (op : M.cop) : (M.ctx * M.log) * M.cout =
   | _ -> M.step oracle st op
 
 let run_script_stepwise st (ops : xop list) =
+  let kept : M.str option ref = ref None in
+  let plain st op = if use_wrappers then step_wrapped st op else M.step oracle st op in
   let one st op =
     match op with
     | SetCustom (f, g) -> step_custom st f g
-    | Plain op -> if use_wrappers then step_wrapped st op else M.step oracle st op in
+    | Pre src ->
+        kept := Some src;
+        (st, M.OUnit (match M.build_operator_tree src with M.Ok _ -> M.Ok () | M.Err e -> M.Err e | M.Panic p -> M.Panic p))
+    | Evp (code, keep) ->
+        let src = (match !kept with Some s -> s | None -> failwith "evp without pre") in
+        let e = parse_entry ("n" ^ code) in
+        plain st (if keep then M.CEv (e, src) else M.CEvc (e, src))
+    | Plain op -> plain st op in
   let st, outs = List.fold_left (fun (st, outs) op -> let st', o = one st op in (st', o :: outs)) (st, []) ops in
   (st, List.rev outs)
 
@@ -410,9 +427,41 @@ let run_iter (src : string) : string =
       let n3 = snd (loop M.ident_fn (cons_char 'f') n2) in
       let n4 = snd (loop M.ident_var (cons_char 'v') n3) in
       let n5 = snd (loop M.ident_any (cons_char 'i') n4) in
+      (* other adaptors of Iterator: what they yield is determined by the sequence of items *)
+      let lst r = match r with M.Ok l -> List.map hex_of_str l | _ -> [] in
+      let ids_l = lst (M.iter_identifiers n) and vars_l = lst (M.iter_variable_identifiers n) and fns_l = lst (M.iter_function_identifiers n) in
+      let opsm_l = match M.iter_mut_run (fun o -> o) n with M.Ok (l, _) -> List.map (fun (_, o) -> op_text o) l | _ -> [] in
+      let idsm_l = List.map hex_of_str (fst (loop M.ident_any (fun x -> x) n)) in
+      let varsm_l = List.map hex_of_str (fst (loop M.ident_var (fun x -> x) n)) in
+      let fnsm_l = List.map hex_of_str (fst (loop M.ident_fn (fun x -> x) n)) in
+      let readsm_l = List.map hex_of_str (fst (loop M.ident_read (fun x -> x) n)) in
+      let nth l k = match List.nth_opt l k with Some x -> x | None -> "-" in
+      let last l = match List.rev l with [] -> "-" | x :: _ -> x in
+      let rec step2 l = match l with [] -> [] | [ x ] -> [ x ] | x :: _ :: t -> x :: step2 t in
+      let cat = String.concat "," in
+      let adapt =
+        String.concat "|"
+          [ "nth:" ^ cat (List.map (nth node_list) [ 0; 1; 2; 5 ]);
+            "skipcnt:" ^ cat (List.map (fun k -> string_of_int (List.length (drop k node_list))) [ 0; 1; 3 ]);
+            "step2:" ^ cat (step2 node_list);
+            "idnth1:" ^ nth ids_l 1;
+            "idskip1:" ^ cat (drop 1 ids_l);
+            "idlast:" ^ last ids_l;
+            "idcnt:" ^ string_of_int (List.length vars_l + (100 * List.length fns_l));
+            "mfe:" ^ cat opsm_l;
+            "mcnt:" ^ string_of_int (List.length opsm_l);
+            "mlast:" ^ last opsm_l;
+            "mfold:" ^ String.concat "" (List.map (fun x -> x ^ ";") opsm_l);
+            "mnth1:" ^ nth opsm_l 1;
+            "mskip2:" ^ cat (drop 2 opsm_l);
+            "midfe:" ^ cat idsm_l;
+            "midcnt:" ^ string_of_int (List.length varsm_l + (100 * List.length fnsm_l));
+            "midlast:" ^ last idsm_l;
+            "midnth1:" ^ nth readsm_l 1 ]
+      in
       Printf.sprintf
-        "OK ids[%s] vars[%s] reads[%s] writes[%s] fns[%s] nodes[%s] ops[%s] idsm[%s] varsm[%s] readsm[%s] writesm[%s] fnsm[%s] via<%s> renamed%s"
-        a b c d e nodes opsm am bm cm dm em others (tree_text n5)
+        "OK ids[%s] vars[%s] reads[%s] writes[%s] fns[%s] nodes[%s] ops[%s] idsm[%s] varsm[%s] readsm[%s] writesm[%s] fnsm[%s] via<%s> adapt<%s> renamed%s"
+        a b c d e nodes opsm am bm cm dm em others adapt (tree_text n5)
 
 let fmt_oracle : M.fmt_oracle =
   { M.fo_float_display = (fun x -> str_of_hex (oracle_ask ("fts " ^ float_hex x)));
